@@ -33,6 +33,29 @@ CHECKS["C03"] = dict(
           "assembled system on every run; Triangle, file readers and Cuthill renumbering are not modelled (model starts from "
           "the solver's in-memory mesh dumped by harness/h_esolver.cpp); numpy oracle; g++."),
     technique="Coq proof over a hand-written assembly model + bit-exact model/implementation correspondence + independent Galerkin oracle")
+CHECKS["C14"] = dict(
+    category="proof",
+    text=("Generic Coq theorem for ALL schemas and records: parse (print r) = r whenever the boolean `compatible` holds, plus "
+          "idempotence and unknown-key lemmas; the per-class parse/print schemas are regenerated from the C++ readers/writers "
+          "on every run by a translator and `compatible` is re-proved on them by vm_compute (both directions: a new gap or a "
+          "repaired gap breaks the proof). Tie: generated files of all three types are loaded and saved by the real femmcli and "
+          "compared through an independent reader; token-level blocks are compared with the generic Coq interpreter. "
+          "Partial: number lexing/printing, section order and entity-line layout are covered by the correspondence only."),
+    design_ref="DESIGN.md §5 C14",
+    note=("Trusted: Coq kernel + Reals axioms (MaxArea codec), the regex translator tools/translate_schema.py (its output is "
+          "re-checked against real load/save runs), independent reader tools/femfile.py. Known findings: [DoSmartMesh], "
+          "[ForceMaxMesh] not written; subnormal values."),
+    technique="Coq proof of a generic schema round-trip + translator regenerating the schemas from source + load/save differential runs")
+CHECKS["C20"] = dict(
+    category="proof",
+    text=("Finite-domain Coq proof (12 tools x 2^15 environments, vm_compute lifted by forallb_forall): on the fault table "
+          "regenerated from the sources every missing/unreadable input ends in a non-zero exit without output, and all-present "
+          "runs end in status 0 with output; the committed exception list is empty, so the theorem holds at full strength. "
+          "The same table is replayed exhaustively (145 rows) against the real fmesher/fsolver/esolver/hsolver/femmcli."),
+    design_ref="DESIGN.md §5 C20",
+    note=("Trusted: Coq kernel; regex translator tools/translate_faults.py (table re-validated by the exhaustive replay); "
+          "process/filesystem behaviour is observed, not modelled; unreadable files are produced with chmod 000 under uid 65534."),
+    technique="Coq proof over a finite fault table regenerated from source + exhaustive replay against the binaries")
 PENDING = {}
 def main():
     props = [json.loads(l) for l in open(os.path.join(V, "properties.jsonl"))]
